@@ -31,6 +31,20 @@ unitofwork: save actions precede delete actions;     order of the five checks in
 persistence._postfetch  dict_[ver] = params[ver],    `afterFlushSlot`
   committed_state.pop ; session._register_persistent
   / _remove_newly_deleted / _commit_all_states
+persistence._emit_update_statements                  `batchFix` / `headUpd`: with
+  allow_executemany = not return_defaults and          `versionedUpdateExecutemany` (regenerated
+  not needs_version_id ; executemany branch:           from the source; false today) the UPDATE
+  _postfetch(..., c.context.compiled_parameters[0])    records of a flush form one executemany
+  for EVERY record of the group                        group and every object of the group is
+                                                       post-fetched from the FIRST record
+Session.begin_nested() (SAVEPOINT; flushes first:    `Op.nested` (only on a session with nothing
+  modelled only for a session without pending work)    to flush), `St.sp`
+SessionTransaction.rollback of the nested            `spRollbackSlot`: pending objects expunged,
+  transaction after a failed flush →                   deletions reverted, states expired iff
+  _restore_snapshot(dirty_only=True):                  `p.mod` (and `savepointRollbackExpiresModified`,
+  `if not dirty_only or s.modified or s in _dirty`     regenerated from the source); nothing was
+  then the enclosing transaction goes on (commit)      flushed successfully inside the SAVEPOINT
+                                                       before (`_dirty` of the nested txn is empty)
 Session.commit (expire_on_commit) / rollback          `expireSlot`, `rollbackSlot`
   (pending expunged, deleted restored, all expired)
 loading.get_from_identity / load_on_ident /           `Op.get`
@@ -50,8 +64,9 @@ writer had not seen, `St.reins` when a primary key that had been deleted is
 inserted again (the counter then restarts at 1: ABA).
 
 Imports only the regenerated table SaVerif.Gen.VersionCfg (translator in
-harness/props/c44.py: the default `version_id_generator` lambda of orm/mapper.py
-and the shape of the `was_already_deleted` branch of persistence.py); total,
+harness/props/c44.py: the default `version_id_generator` lambda of orm/mapper.py,
+the shape of the `was_already_deleted` branch and the `allow_executemany` conjunction of
+persistence.py, the expiry condition of `SessionTransaction._restore_snapshot`); total,
 executable.
 -/
 namespace SaVerif.Version
@@ -97,13 +112,14 @@ structure St where
   clock : Nat
   sess : Nat → Sess
   txn : Nat → Bool       -- session._transaction is not None
+  sp : Nat → Bool        -- a SAVEPOINT (begin_nested) is open in the session
   everDel : Nat → Bool   -- ghost
   lost : Bool            -- ghost
   reins : Bool           -- ghost
 
 def St.init : St :=
   { db := fun _ => none, clock := 1, sess := fun _ _ => Slot.empty,
-    txn := fun _ => false, everDel := fun _ => false, lost := false, reins := false }
+    txn := fun _ => false, sp := fun _ => false, everDel := fun _ => false, lost := false, reins := false }
 
 inductive Op
   | get (s k : Nat)
@@ -114,6 +130,7 @@ inductive Op
   | commit (s : Nat)
   | tryflush (s : Nat)     -- flush() then rollback()
   | rollback (s : Nat)
+  | nested (s : Nat)       -- begin_nested() on a session with nothing to flush
 deriving Repr
 
 inductive Outcome | ok | stale | integrity | gone
@@ -281,6 +298,12 @@ def isDelAct (a : Act) : Bool :=
   | .del _ | .insDel _ => true
   | _ => false
 
+/-- the object is in session.new / session.deleted / session.dirty -/
+def slotHasWork (sl : Slot) : Bool :=
+  sl.pend.isSome || (match sl.pers with
+                     | some p => p.mod || p.del
+                     | none => false)
+
 def updSess (f : Nat → Sess) (s : Nat) (g : Sess) : Nat → Sess :=
   fun t => if t = s then g else f t
 
@@ -296,13 +319,62 @@ def loadObj (old : Option PObj) (r : Row) : PObj :=
     else { p with ver := some r.ver, val := some r.val, cval := some r.val, seen := r.stamp }
   | none => ⟨some r.ver, some r.val, some r.val, false, false, r.stamp⟩
 
+/-! ### per-record vs per-batch postfetch -/
+
+def isUpdAct (a : Act) : Bool :=
+  match a with
+  | .upd _ _ | .switch _ _ => true
+  | _ => false
+
+/-- the first UPDATE record of the flush (records are sorted by primary key) -/
+def headUpd (n : Nat) (se : Sess) (db : DB) : Option Nat :=
+  (List.range n).find? (fun k => isUpdAct (actOf (se k) (db k)))
+
+/-- the version `version_id_generator` put into the parameter set of record `k` -/
+def paramVer (g : Gen) (clock k : Nat) (a : Act) (row : Option Row) : Option Nat :=
+  match a with
+  | .upd _ old | .switch _ old => some (newVer g (useVer old row) (tick clock k))
+  | _ => none
+
+/-- `_postfetch(..., c.context.compiled_parameters[0])`: one statement per record — the
+    record's own parameters; one executemany statement for the group — the parameters of the
+    group's first record, for every object of the group -/
+def batchFix (g : Gen) (clock n : Nat) (se : Sess) (db : DB) (k : Nat) (sl : Slot) : Slot :=
+  if versionedUpdateExecutemany && isUpdAct (actOf (se k) (db k)) then
+    match headUpd n se db with
+    | some h =>
+      match paramVer g clock h (actOf (se h) (db h)) (db h), sl.pers with
+      | some v, some p => { sl with pers := some { p with ver := some v } }
+      | _, _ => sl
+    | none => sl
+  else sl
+
+/-! ### SAVEPOINT rollback after a failed flush -/
+
+/-- `_restore_snapshot(dirty_only=True)`: `_update_impl(s, revert_deletion=True)` for the
+    deleted-marked states, `_expire` for the modified ones -/
+def spRollbackObj (p : PObj) : PObj :=
+  if p.mod && savepointRollbackExpiresModified then expiredObj p else { p with del := false }
+
+/-- pending objects are expunged (`_expunge_states(set(self._new) ∪ session._new)`) -/
+def spRollbackSlot (sl : Slot) : Slot := ⟨sl.pers.map spRollbackObj, none⟩
+
+/-- a session slot after a flush that failed.  `insp`: the flush ran inside a SAVEPOINT and
+    the application rolls back the SAVEPOINT only and commits the enclosing transaction
+    (which then has nothing to write; expire_on_commit applies); otherwise `rollback()`. -/
+def failSlot (insp eoc : Bool) (sl : Slot) : Slot :=
+  if insp then (if eoc then expireSlot (spRollbackSlot sl) else spRollbackSlot sl)
+  else rollbackSlot sl
+
+def off (f : Nat → Bool) (s : Nat) : Nat → Bool := fun t => if t = s then false else f t
+
 def flushOk (c : Cfg) (st : St) (s : Nat) (commit : Bool) : St :=
   let se := st.sess s
   let n := c.npk
   let db' : DB := fun k => if k < n then applyRow c.gen st.clock k (actOf (se k) (st.db k)) (st.db k) else st.db k
   let se' : Sess := fun k =>
     if commit then
-      let sl := if k < n then afterFlushSlot c.gen st.clock k (se k) (st.db k) else se k
+      let sl := if k < n then batchFix c.gen st.clock n se st.db k (afterFlushSlot c.gen st.clock k (se k) (st.db k)) else se k
       if c.eoc then expireSlot sl else sl
     else rollbackSlot (se k)
   { st with
@@ -310,6 +382,7 @@ def flushOk (c : Cfg) (st : St) (s : Nat) (commit : Bool) : St :=
     clock := st.clock + n
     sess := updSess st.sess s se'
     txn := fun t => if t = s then false else st.txn t
+    sp := off st.sp s
     everDel := if commit then (fun k => st.everDel k || (k < n && isDelAct (actOf (se k) (st.db k)))) else st.everDel
     lost := if commit then st.lost || anyPk n (fun k => lostAt (se k) (st.db k)) else st.lost
     reins := if commit then st.reins || anyPk n (fun k => reinsAt (st.everDel k) (actOf (se k) (st.db k))) else st.reins }
@@ -318,20 +391,24 @@ def flushOk (c : Cfg) (st : St) (s : Nat) (commit : Bool) : St :=
 def doRollback (st : St) (s : Nat) : St :=
   if st.txn s then
     { st with sess := updSess st.sess s (fun k => rollbackSlot (st.sess s k)),
-              txn := fun t => if t = s then false else st.txn t }
+              txn := fun t => if t = s then false else st.txn t,
+              sp := off st.sp s }
   else st
 
 /-- `commit = true`: Session.commit() (autobegins, flushes, commits; on an error
-    the harness calls rollback()).  `commit = false`: flush() then rollback();
-    without a transaction there is nothing to flush and rollback() passes. -/
+    the harness calls rollback()).  With an open SAVEPOINT: flush() inside the
+    SAVEPOINT, release it and commit; on an error the harness rolls back the SAVEPOINT
+    only and commits the enclosing transaction.  `commit = false`: flush() then
+    rollback(); without a transaction there is nothing to flush and rollback() passes. -/
 def doFlush (c : Cfg) (st : St) (s : Nat) (commit : Bool) : St × Out :=
   if !commit && !st.txn s then (st, .flush .ok) else
   match flushOutcome c.npk (st.sess s) st.db with
   | .ok => (flushOk c st s commit, .flush .ok)
   | o =>
     ({ st with clock := st.clock + c.npk,
-               sess := updSess st.sess s (fun k => rollbackSlot (st.sess s k)),
-               txn := fun t => if t = s then false else st.txn t }, .flush o)
+               sess := updSess st.sess s (fun k => failSlot (commit && st.sp s) c.eoc (st.sess s k)),
+               txn := fun t => if t = s then false else st.txn t,
+               sp := off st.sp s }, .flush o)
 
 /-- change one slot; every caller is an operation that autobegins -/
 def setSlot (st : St) (s k : Nat) (sl : Slot) : St :=
@@ -394,6 +471,10 @@ def step (c : Cfg) (st : St) : Op → St × Out
   | .commit s => doFlush c st s true
   | .tryflush s => doFlush c st s false
   | .rollback s => (doRollback st s, .done)
+  | .nested s =>
+    if st.sp s || anyPk c.npk (fun k => slotHasWork (st.sess s k)) then (st, .skip)
+    else ({ st with txn := fun t => if t = s then true else st.txn t,
+                    sp := fun t => if t = s then true else st.sp t }, .done)
 
 def run (c : Cfg) (st : St) : List Op → St
   | [] => st
@@ -408,6 +489,6 @@ def runOut (c : Cfg) (st : St) : List Op → List (Out × St)
 
 def opOk (c : Cfg) (nsess : Nat) : Op → Bool
   | .get s k | .del s k | .expire s k | .set s k _ | .add s k _ => s < nsess && k < c.npk
-  | .commit s | .tryflush s | .rollback s => s < nsess
+  | .commit s | .tryflush s | .rollback s | .nested s => s < nsess
 
 end SaVerif.Version
